@@ -51,22 +51,32 @@ Print Assumptions C18_new_config.
 
 (* ... a factory made from a plugin constructor builds the product of a call from a config
    created and filled during that call (state [s] at the call, not [s0] at creation) ... *)
-Theorem C18_plugin_factory_config : forall sh we hf o s0 s1 cev f s s2 ev p,
+Theorem C18_plugin_factory_config : forall sh we named hf o s0 s1 cev f s s2 ev p,
   sh_ret sh = RPlugin ->
-  reg_new_factory sh we hf o s0 = (s1, cev, CrOk f) ->
+  reg_new_factory sh we named hf o s0 = (s1, cev, CrOk f) ->
   call_factory sh we hf o s f = (s2, ev, OOk p) ->
   p_arg p = expected_arg sh hf o s.
 Proof. exact plugin_factory_product_arg. Qed.
 Print Assumptions C18_plugin_factory_config.
 
 (* ... and one made from a factory constructor from the single config decoded at creation. *)
-Theorem C18_factory_factory_config : forall sh we hf o s0 s1 cev f s s2 ev p,
+Theorem C18_factory_factory_config : forall sh we named hf o s0 s1 cev f s s2 ev p,
   sh_ret sh = RFactory ->
-  reg_new_factory sh we hf o s0 = (s1, cev, CrOk f) ->
+  reg_new_factory sh we named hf o s0 = (s1, cev, CrOk f) ->
   call_factory sh we hf o s f = (s2, ev, OOk p) ->
   p_arg p = expected_arg sh hf o s0.
 Proof. exact factory_factory_product_arg. Qed.
 Print Assumptions C18_factory_factory_config.
+
+(* The factory NewFactory hands out has exactly the requested Go type - also when the requested
+   type and the registered function's type have the same signature and differ only in one of
+   them being a named func type: then it is a MakeFunc of the requested type, never the
+   registered function itself (a type assertion to the requested type, or an assignment to a
+   config field of that type, succeeds). *)
+Theorem C18_factory_type : forall sh we named hf o s0 s1 cev f,
+  reg_new_factory sh we named hf o s0 = (s1, cev, CrOk f) -> factory_named sh named f = named.
+Proof. exact factory_type. Qed.
+Print Assumptions C18_factory_type.
 
 (* Config identities of different calls are pairwise distinct (Prop reading of the check). *)
 Theorem C18_fresh_ids : forall c o s calls,
@@ -100,7 +110,7 @@ Definition ex_oracle (ff cf : nat -> bool) : oracle :=
    fill failing at its third invocation: creation makes and fills one config (and drops it),
    then product, panic carrying the fill error, product; four configs in all *)
 Example C18_example_run :
-  run_case (mkCase (mkShape RPlugin CPtr true false DefVal TImpl) (ReqFactory false) true 3)
+  run_case (mkCase (mkShape RPlugin CPtr true false DefVal TImpl false) (ReqFactory false false) true 3)
            (ex_oracle (Nat.eqb 2) (fun _ => false)) =
   ObsFactory [EvDefault 0; EvFill 0 (FTConf 0) (mkV 100 200 0)] None
     [ ([EvDefault 1; EvFill 1 (FTConf 1) (mkV 101 201 0); EvCtor 0 (AConf (mkConf 1 (mkV 101 301 401)))],
@@ -113,7 +123,7 @@ Proof. vm_compute. reflexivity. Qed.
 (* the specification is not trivially true: a second product sharing the first one's config,
    a swallowed constructor error and a nil config are each rejected *)
 Example C18_spec_rejects_shared_config :
-  fresh_b (mkCase (mkShape RPlugin CPtr false false DefNone TIface) (ReqFactory true) false 2)
+  fresh_b (mkCase (mkShape RPlugin CPtr false false DefNone TIface false) (ReqFactory true false) false 2)
           (ex_oracle (fun _ => false) (fun _ => false))
           (ObsFactory [] None
              [ ([EvCtor 0 (AConf (mkConf 0 vzero))], OOk (mkProd 0 (AConf (mkConf 0 vzero)) None));
@@ -121,20 +131,20 @@ Example C18_spec_rejects_shared_config :
 Proof. vm_compute. reflexivity. Qed.
 
 Example C18_spec_rejects_swallowed_error :
-  errors_b (mkCase (mkShape RPlugin NoCfg true false DefNone TIface) (ReqFactory false) false 1)
+  errors_b (mkCase (mkShape RPlugin NoCfg true false DefNone TIface false) (ReqFactory false false) false 1)
            (ex_oracle (fun _ => false) (Nat.eqb 0))
            (ObsFactory [] None [ ([EvCtor 0 ANone], OOk (mkProd 0 ANone None)) ]) = false.
 Proof. vm_compute. reflexivity. Qed.
 
 Example C18_spec_rejects_nil_config :
-  configured_b (mkCase (mkShape RPlugin CPtr false false DefNil TIface) ReqNew false 1)
+  configured_b (mkCase (mkShape RPlugin CPtr false false DefNil TIface false) ReqNew false 1)
                (ex_oracle (fun _ => false) (fun _ => false))
                (ObsNew [ ([EvDefault 0; EvCtor 0 ANil], OOk (mkProd 0 ANil None)) ]) = false.
 Proof. vm_compute. reflexivity. Qed.
 
 (* an outer constructor that got the inner creation's config is rejected *)
 Example C18_spec_rejects_foreign_config :
-  reround_ok (mkShape RPlugin CPtr false false DefVal TIface) (ex_oracle (fun _ => false) (fun _ => false)) true
+  reround_ok (mkShape RPlugin CPtr false false DefVal TIface false) (ex_oracle (fun _ => false) (fun _ => false)) true
     (mkRe [EvDefault 0; EvFill 0 (FTConf 0) (mkV 100 200 0)]
           ([EvDefault 1; EvFill 1 (FTConf 1) (mkV 101 201 0); EvCtor 0 (AConf (mkConf 1 (mkV 101 301 401)))],
            OOk (mkProd 0 (AConf (mkConf 1 (mkV 101 301 401))) None))
